@@ -60,7 +60,12 @@ ASSUMPTIONS = [
     'decodes to the configured fill colour; it must carry no-store (a public/max-age directive next to no-store is '
     'only counted, because no-store wins in RFC 7234)',
     'a cache-served 200 without ETag or Last-Modified counts as a violation (the statement names both validators); '
-    'a 304 must repeat the current ETag (RFC 7232 4.1) and have an empty body',
+    'a 304 served from the cache must repeat the current ETag (RFC 7232 4.1) and have an empty body',
+    'a 304 that rests on ETag equality alone is rejected when the same ETag string was issued earlier for this tile '
+    'while it was stored with a different timestamp or size (validators derive from timestamp and size; rewrites that '
+    'change neither - same second and same size on the second-granular sqlite backend - are outside the clause)',
+    'findings listed as open in known_findings.d/C20.json are excluded by construction: the generator strips the '
+    'conditional headers / skips the request for exactly those situations (counted in excluded_by_construction)',
 ]
 
 SIG_FILL_META = 'C20/fill-without-no-store/meta-tile-flag-lost'
